@@ -572,3 +572,212 @@ func inspectNoLit(n ast.Node, fn func(ast.Node) bool) {
 		return fn(x)
 	})
 }
+
+// RuleR5: outside the resolver the current context only moves outwards. Every store into
+// the core's current-context field that is not in the context resolver assigns nil or a
+// `.Parent` selection: closing a parenthesised directive leaves its parent current. A
+// context restored from a value saved earlier (before the resolver moved it) points into
+// a sibling's finished subtree whenever placing the directive needed a walk upwards.
+func RuleR5(c *Ctx) {
+	sc := c.Run.Begin("R5", "outside the context resolver the current-context field is assigned only nil or a .Parent selection (the context moves outwards along Parent links; only the resolver moves it inwards)", 3)
+	defer sc.End()
+	resolver, _ := c.resolverFunc()
+	parent := c.Field("directive", "Directive", "Parent")
+	if resolver == nil || parent == nil {
+		sc.Undecided("anchors", "-", "unresolved anchor: context resolver / Directive.Parent")
+		return
+	}
+	// the current-context field: the field of JApiCore that the resolver assigns the
+	// directive it places to
+	rfd := c.P.Decl(resolver)
+	rpk := c.P.PkgOfDecl(rfd)
+	dirT := c.Named("directive", "Directive")
+	coreT := c.Named("core", "JApiCore")
+	var ctxField *types.Var
+	ast.Inspect(rfd.Body, func(n ast.Node) bool {
+		as, ok := n.(*ast.AssignStmt)
+		if !ok || len(as.Lhs) != 1 {
+			return true
+		}
+		if sel, ok := ast.Unparen(as.Lhs[0]).(*ast.SelectorExpr); ok {
+			if f, ok := rpk.TypesInfo.ObjectOf(sel.Sel).(*types.Var); ok && f.IsField() && coreT != nil && fieldOwner(coreT, f) {
+				if p, ok := f.Type().(*types.Pointer); ok && dirT != nil && types.Identical(p.Elem(), dirT) {
+					ctxField = f
+				}
+			}
+		}
+		return true
+	})
+	if ctxField == nil {
+		sc.Undecided("anchors", c.P.Pos(rfd.Pos()), "the resolver assigns no *Directive field of JApiCore")
+		return
+	}
+	perFn := map[*ast.FuncDecl]int{}
+	c.P.Funcs(func(pk *pkgT, fd *ast.FuncDecl) {
+		info := pk.TypesInfo
+		self, _ := info.Defs[fd.Name].(*types.Func)
+		if self == resolver {
+			return
+		}
+		cf := c.CFG(pk, fd.Body)
+		ast.Inspect(fd.Body, func(n ast.Node) bool {
+			as, ok := n.(*ast.AssignStmt)
+			if !ok {
+				return true
+			}
+			for i, l := range as.Lhs {
+				if !fieldSel(info, l, ctxField) || i >= len(as.Rhs) {
+					continue
+				}
+				perFn[fd]++
+				key := fmt.Sprintf("%s#%d", c.P.DeclName(fd), perFn[fd])
+				rhs := ast.Unparen(cf.Resolve(as.Rhs[i]))
+				if tv, ok := info.Types[rhs]; ok && tv.IsNil() {
+					sc.Holds(key, c.P.Pos(as.Pos()), "reset to the root context")
+					continue
+				}
+				if sel, ok := rhs.(*ast.SelectorExpr); ok && info.ObjectOf(sel.Sel) == parent {
+					sc.Holds(key, c.P.Pos(as.Pos()), "moves outwards: "+types.ExprString(rhs))
+					continue
+				}
+				sc.Violation(key, c.P.Pos(as.Pos()), "the current context is set to "+types.ExprString(as.Rhs[i])+" outside the resolver, which is neither nil nor the Parent of a directive: after a parenthesised directive the next one starts its walk from a stale place (inside a previous sibling's finished subtree) and is attached to, or admitted by, the wrong directive")
+			}
+			return true
+		})
+	})
+}
+
+// RuleR2c: the `)` handler succeeds only after it found a parenthesised context. In the
+// function that walks the Parent chain for the flagged directive every success return is
+// behind the fact "HasExplicitContext is true" (tested there, or by a helper whose non-nil
+// results are all behind that fact).
+func RuleR2c(c *Ctx) {
+	sc := c.Run.Begin("R2c", "the function that closes a parenthesised context returns success only after a directive with HasExplicitContext was found on the walk", 1)
+	defer sc.End()
+	pk := c.P.Pkg("core")
+	flag := c.Field("directive", "Directive", "HasExplicitContext")
+	_, handlers, _ := c.lexemeDispatch()
+	if pk == nil || flag == nil || len(handlers) == 0 {
+		sc.Undecided("anchors", "-", "unresolved anchor: Directive.HasExplicitContext / lexeme dispatch")
+		return
+	}
+	info := pk.TypesInfo
+	hasFlag := func(fa cfgx.Fact) bool {
+		sel, ok := ast.Unparen(fa.Expr).(*ast.SelectorExpr)
+		return ok && info.ObjectOf(sel.Sel) == flag && fa.Truth
+	}
+	mentionsFlag := func(fd *ast.FuncDecl) bool {
+		hit := false
+		ast.Inspect(fd.Body, func(n ast.Node) bool {
+			if sel, ok := n.(*ast.SelectorExpr); ok && info.ObjectOf(sel.Sel) == flag {
+				hit = true
+			}
+			return true
+		})
+		return hit
+	}
+	// a finder: every non-nil result is behind the fact
+	finder := func(g *types.Func) bool {
+		gd := c.P.Decl(g)
+		if gd == nil || c.P.PkgOfDecl(gd) != pk || !mentionsFlag(gd) {
+			return false
+		}
+		cf := c.CFG(pk, gd.Body)
+		ok, n := true, 0
+		inspectNoLit(gd.Body, func(x ast.Node) bool {
+			ret, isRet := x.(*ast.ReturnStmt)
+			if !isRet || len(ret.Results) != 1 {
+				return true
+			}
+			if tv, has := info.Types[ret.Results[0]]; has && tv.IsNil() {
+				return true
+			}
+			n++
+			if !cf.MustAt(ret, hasFlag, nil, nil) {
+				ok = false
+			}
+			return true
+		})
+		return ok && n > 0
+	}
+	n := 0
+	resolver, _ := c.resolverFunc()
+	inResolver := map[*types.Func]bool{}
+	if resolver != nil {
+		for _, f := range reachStatic(c.P, pk, []*types.Func{resolver}) {
+			inResolver[f] = true
+		}
+	}
+	for _, f := range reachStatic(c.P, pk, handlers["ContextExplicitClosing"]) {
+		fd := c.P.Decl(f)
+		if fd == nil || inResolver[f] {
+			continue // placing the pending directive is the resolver's business (R1-R4)
+		}
+		sig := f.Type().(*types.Signature)
+		if sig.Results().Len() != 1 || !isErrorLike(sig.Results().At(0).Type()) {
+			continue
+		}
+		cf := c.CFG(pk, fd.Body)
+		// does this function decide the closing? it tests the flag itself or calls a finder
+		usesFinder := false
+		ast.Inspect(fd.Body, func(x ast.Node) bool {
+			if call, ok := x.(*ast.CallExpr); ok {
+				if g := Callee(info, call); g != nil && g != f && finder(g) {
+					usesFinder = true
+				}
+			}
+			return true
+		})
+		if !mentionsFlag(fd) && !usesFinder {
+			continue
+		}
+		gen := func(fa cfgx.Fact) bool {
+			if hasFlag(fa) {
+				return true
+			}
+			be, ok := ast.Unparen(fa.Expr).(*ast.BinaryExpr)
+			if !ok || !((be.Op == token.NEQ && fa.Truth) || (be.Op == token.EQL && !fa.Truth)) {
+				return false
+			}
+			x := be.X
+			if isNilIdentExpr(info, x) {
+				x = be.Y
+			}
+			call, ok := ast.Unparen(cf.Resolve(x)).(*ast.CallExpr)
+			if !ok {
+				return false
+			}
+			g := Callee(info, call)
+			return g != nil && finder(g)
+		}
+		bad := ""
+		rets := 0
+		inspectNoLit(fd.Body, func(x ast.Node) bool {
+			ret, isRet := x.(*ast.ReturnStmt)
+			if !isRet || len(ret.Results) != 1 {
+				return true
+			}
+			if tv, has := info.Types[ret.Results[0]]; !has || !tv.IsNil() {
+				return true
+			}
+			rets++
+			if !cf.MustAt(ret, gen, nil, nil) {
+				bad = c.P.Pos(ret.Pos())
+			}
+			return true
+		})
+		if rets == 0 {
+			continue
+		}
+		n++
+		key := c.P.DeclName(fd)
+		if bad == "" {
+			sc.Holds(key, c.P.Pos(fd.Pos()), fmt.Sprintf("%d success return(s), each after a directive with HasExplicitContext was found", rets))
+		} else {
+			sc.Violation(key, c.P.Pos(fd.Pos()), "the success return at "+bad+" can be reached without a parenthesised context having been found: a stray `)` (after the `)` that closed a top-level block, or before any directive) is accepted")
+		}
+	}
+	if n == 0 {
+		sc.Undecided("closer", "-", "no function under the `)` handler decides on HasExplicitContext")
+	}
+}
